@@ -30,3 +30,51 @@ claim("C14", "exhaustive enumeration of call histories (no state merging) on eve
       "Every history of <=2 (quick) / <=3 (thorough, core menu) calls from a menu of valid and invalid requests on 8 runner kinds; every call is compared with the model on exception, execution log, counters of each layer, results and the tracker's JSON file.",
       "Scripted RNG with default answers; zero-width circuits, non-gate circuits under the tracker and unbound circuits inside batches are outside the alphabet.",
       "DESIGN.md 4/C14")
+claim("C02", "exhaustive enumeration of the 27-entry gate table with a trigonometric cut-off: degree certificates walked from the real factories' symbolic output, then certificate-sized tensor grids that decide the identities for all real parameters",
+      "Every table entry: computability, dimension, unitarity, Hermitian flag, dagger and (for the ten rotation/phase gates) the additive group law on grids with 2*deg+1 points per parameter; fixed relations exactly. With a certificate the verdict covers all real parameters.",
+      "sympy evaluates its own expressions at numbers correctly; residual <= 1e-10 on the grid bounds the sup-norm by 1e-10*prod(2D+1).",
+      "DESIGN.md 4/C02, 3.3")
+claim("C05", "small-scope exhaustive enumeration of gates x parameter alphabet x every wrapper chain (public methods and direct dataclass nesting) x pipelines, judged by an independent structural walker",
+      "Every built-in gate with a parameter alphabet (numbers, sympy numbers, shadowing and indexed symbols, expressions), custom definitions incl. unusual names, every wrapper chain up to the depth bound, 2-operation circuits, circuit sets with per-circuit definitions, through dict/JSON, files and StringIO.",
+      "Symbol names are non-keyword identifiers; a plain and an indexed symbol never share a base; custom names do not collide with built-in names/markers (as the quantifier says).",
+      "DESIGN.md 4/C05")
+claim("C06", "small-scope exhaustive enumeration of operations x ALL symbol maps over a 4-key domain x all splits of each map",
+      "Every operation of the alphabet (parametric built-ins over an expression alphabet, wrappers, a custom gate with every pair of arguments incl. its own symbols swapped, MultiPhaseOperation) under every map {alpha,beta,c,d}->V: bound parameters, matrices at two assignments, free symbols, every two-step split; power/exp must refuse; 2-operation circuits.",
+      "No chained maps. Analytic entries compared at two assignments of the remaining symbols.",
+      "DESIGN.md 4/C06")
+claim("C07", "small-scope exhaustive enumeration of modifier chains with a step-wise oracle on the implementation's own matrices; cut-off grids for algebraic chains over one-parameter gates",
+      "All chains of depth <=2 (quick) / <=3 (thorough) with at most one transcendental modifier over 21 bases, plus transcendental-on-transcendental chains; each step judged against the definition applied to the previous step's numeric matrix, so every root cause is localised; arity, params, replace_params.",
+      "Fractional powers and exp are checked at listed parameters only. Open findings D15, D18, D19 are matched by root-cause signature computed from the failing step.",
+      "DESIGN.md 4/C07")
+claim("C08", "small-scope exhaustive enumeration of circuits x every control position, every qubit list over a 5-element index set, every layer size/factory, every ancilla count",
+      "Circuits of length <=2/3 over self-adjoint, parametric, wrapped and custom gates: inverse laws, controlled(k) for every k in 0..n against the block definition, layers, apply_gate_to_qubits on all lists of <=3 qubits with duplicates, ancilla registers.",
+      "Symbolic operations are bound one by one before evaluation. Open finding D15b (inverse over fractional powers) matched by predicted matrix.",
+      "DESIGN.md 4/C08")
+claim("C11", "small-scope exhaustive enumeration of operators x coefficient alphabet x pipelines and of persisted artefacts x loaders",
+      "Terms over indices {0,7,12,123} with a 16-value coefficient alphabet, sums with duplicates/zeros/empty, through dict/JSON (stdlib and rapidjson), files (path and open file), operator sets and the printer/parser; every artefact kind with 0/1/2 frames, real/complex, through path, open file and StringIO.",
+      "|coefficient| < 1e15. Linear independence of Pauli strings makes coefficient maps a complete oracle.",
+      "DESIGN.md 4/C11")
+claim("C15", "exhaustive enumeration of task lists up to length 3/4 over 7 tasks of the three kinds, basis-state shot sweep across the sampler threshold, binding lists with a shared circuit object",
+      "Every ordering of measurable / constant / zero-shot tasks: one result per task at its position with task-specific expected values; runner sees exactly the measurable tasks; exact values vs quadratic forms; per-task binding.",
+      "Scripted sampler with default answers; basis states make values independent of sampling.",
+      "DESIGN.md 4/C15")
+claim("C16", "exhaustive enumeration of Pauli strings (<=3/4 qubits) with a degree-1 cut-off in s=c*t, ordered term lists with repetition x steps, and the derivative operator identity over a complete observable basis",
+      "Single terms: certificate (one parametric RZ(2ct)) + 8-point grid decides all t; sums: structural certificate + matrices on a time grid; derivatives: sum_k f_k U_k^dag O U_k = d/dt[U^dag O U] for every Pauli string O; imaginary-part guard both signs.",
+      "Sums/derivatives are checked at listed times (incommensurate frequencies); zero coefficients excluded from derivatives.",
+      "DESIGN.md 4/C16")
+claim("C17", "small-scope exhaustive enumeration of weight dictionaries, of ordered qubit lists for marginals, and of ordered pairs of a distribution pool for the distance laws",
+      "All integer-weight dicts on <=2/3 bits in three key styles, rejections; every ordered list of distinct qubits on <=4 bits vs exact Fraction marginals with source snapshot; MMD/NLL/JS laws on all ordered pairs incl. equal distributions in different insertion order; save/load.",
+      "Tolerances 1e-12; Gibbs bound checked with the clipping constant.",
+      "DESIGN.md 4/C17")
+claim("C18", "exhaustive enumeration of placements and rule lists with a trigonometric cut-off grid over the three U3 angles (degrees from the real factories), whole-circuit global-phase oracle",
+      "U3 plain/1/2 controls on the certificate grid (5x7x7), every index placement, length-2 circuits with unmatched partner operations in both orders, rule-order and idempotence cases. Open finding D16 (relative phase under control) is matched by its predicted matrix; any other discrepancy is a violation.",
+      "to_unitary and gate matrices as decided by C01/C02.",
+      "DESIGN.md 4/C18")
+claim("C19", "exhaustive enumeration of expression trees up to depth 2/3 (de-duplicated by srepr), n-ary/unevaluated variants, unsupported constructs in every small context, and all short symbol names for the natural keys",
+      "Every tree of the grammar up to the bound is translated to the neutral form and back and evaluated at two assignments; supported-grammar trees must translate, others must not come back changed; natural keys against an independent scanner on all names of length <=4/5 over a 7-character alphabet.",
+      "Values compared at two assignments (analytic expressions); trees that sympy itself rewrites outside the grammar may be refused.",
+      "DESIGN.md 4/C19")
+claim("C20", "explicit-state exploration of the operation menu over a shared object pool: the reachable state graph must be one state; all ordered pairs (triples over a core) with a differential oracle against fresh arguments",
+      "Every operation the statement lists (about 130) from the initial state, all ordered pairs, thorough: all triples over a 27-operation core; state = deep public snapshot of every pool object; op2's result after op1 must equal its result on a fresh pool.",
+      "Observability = public surface in mc/snapshot.py; RNG scripted.",
+      "DESIGN.md 4/C20")
